@@ -188,6 +188,12 @@ func (f *c08Farm) script(ep *farm.Endpoint, src net.Addr, req []byte, seq uint64
 	}
 	serial := uint32(req[4]) | uint32(req[5])<<8 | uint32(req[6])<<16 | uint32(req[7])<<24
 	id := uint32(req[8]) | uint32(req[9])<<8 | uint32(req[10])<<16 | uint32(req[11])<<24
+	if ep == f.bcast && (serial^id)%3 == 0 {
+		// on a broadcast every controller on the network answers: another controller's reply arrives first
+		other := append([]byte{}, reply...)
+		other[5] ^= 0x5a
+		return []farm.Action{{Data: other}, {Delay: f.delayOf(serial, id), Data: reply}}
+	}
 	return []farm.Action{{Delay: f.delayOf(serial, id), Data: reply}}
 }
 
